@@ -585,3 +585,4 @@ class MultiFileReader:
                 'MultiFileReader only supports seeking to start at this time')
         for f in self._fileobjs:
             f.seek(0)
+        self._index = 0
